@@ -130,11 +130,12 @@ def parse_vspec(path):
             cur.ats.append(a)
             section = ("at", a)
             continue
-        m = re.match(r'^at\s+loop\s+(\d+)\s+after(?:\s+\[([A-Za-z0-9_.\-]+)\])?$', line)
+        m = re.match(r'^at\s+loop\s+(\d+)\s+(after|end)(?:\s+\[([A-Za-z0-9_.\-]+)\])?$', line)
         if m:
             # proof hint right after the closing brace of the n-th loop of the body (source order, as for `loop n`): the place
-            # where an inner loop's result is folded into the enclosing loop's invariant; no source fragment to lose
-            a = AtSpec(None, int(m.group(1)), "loop-after", label=m.group(2) or "")
+            # where an inner loop's result is folded into the enclosing loop's invariant; `end`: at the end of that loop's body
+            # (before its closing brace), where the invariant is re-established; no source fragment to lose
+            a = AtSpec(None, int(m.group(1)), "loop-" + m.group(2), label=m.group(3) or "")
             cur.ats.append(a)
             section = ("at", a)
             continue
@@ -442,14 +443,15 @@ class Unit:
                 p0 = st0[bo0].end
                 text = text[:p0] + "\n" + "\n".join(f"{tl} /*@hint:{a.label}@*/" for tl in a.text) + text[p0:]
                 continue
-            if a.where == "loop-after":
+            if a.where in ("loop-after", "loop-end"):
                 st0 = sig(lex(text))
                 _, _, bo0 = _find_body_open(st0)
                 loops0 = loop_headers(st0, bo0 + 1, match_close(st0, bo0))
                 if a.nth > len(loops0):
                     raise X.Undecided(f"lost anchor: loop {a.nth} of {fnkey} not found ({len(loops0)} loops in source)")
-                p0 = st0[match_close(st0, loops0[a.nth - 1][1])].end
-                text = text[:p0] + "\n" + "\n".join(f"{tl} /*@hint:{a.label}@*/" for tl in a.text) + text[p0:]
+                ce0 = st0[match_close(st0, loops0[a.nth - 1][1])]
+                p0 = ce0.end if a.where == "loop-after" else ce0.start
+                text = text[:p0] + "\n" + "\n".join(f"{tl} /*@hint:{a.label}@*/" for tl in a.text) + "\n" + text[p0:]
                 continue
             if a.where == "end":
                 le = text.rstrip().rfind("}")
